@@ -448,6 +448,7 @@ struct Sys {
         s += "rt:"; put(s, idx(I.rt.storage)); put(s, I.rt.watchSize);
         const auto &pq = I.rt.pending;
         put(s, pq.size); put(s, (pq.pos_w - pq.pos_r + 32) % 32);
+        put(s, pq.pos_r);        // absolute position in the ring of 32: states that differ only by it are kept apart (wrap-around)
         for(int i = 0; i < 32; ++i) put(s, pq.vals[(pq.pos_r + i) % 32]);
         s += "n2r:";
         for(auto &m : I.n2r) { put(s, m.kind); if(m.kind == K_BIND) { put(s, idx(m.st)); for(int a = 0; a < NA; ++a) { put(s, m.snap.a[a][0]); put(s, m.snap.a[a][1]); } } else if(m.kind == K_OTHER) s += m.bytes; }
@@ -477,11 +478,62 @@ struct Sys {
     }
 };
 
+// ---- controller identity: every ordered pair of distinct controllers (number, channel, CC or NRPN) -------------------------------
+// Two addresses are learned one after the other with every message delivered at once. Only messages are observed: the integer by
+// which the realtime half names a controller is opaque.
+struct Ctl { int par; int chan; bool nrpn; };
+static std::string ctl_name(const Ctl &c) { return std::string(c.nrpn ? "NRPN " : "CC ") + std::to_string(c.par) + " ch" + std::to_string(c.chan); }
+static void controller_identity()
+{
+    if(vp::ctx().shard != 0) return;
+    std::vector<Ctl> L;
+    for(int par : {0, 1, 63, 64, 127}) for(int ch : {1, 2, 16}) L.push_back({par, ch, false});
+    for(int par : {0, 1, 127, 128, 129, 4095, 4096, 8191, 8192, 8193, 8319, 12288, 16383}) for(int ch : {1, 16}) L.push_back({par, ch, true});
+    vp::bound("controller_identity", "every ordered pair of distinct controllers out of " + std::to_string(L.size()) + " (CC 0,1,63,64,127 on channels 1,2,16; NRPN 0,1,127,128,129,4095,4096,8191,8192,8193,8319,12288,16383 on channels 1,16): learn /p with the first, /q with the second, each then drives its own address only");
+    const PInfo &P0 = PORT[0], &P1 = PORT[1];
+    for(size_t xi = 0; xi < L.size(); ++xi) for(size_t yi = 0; yi < L.size(); ++yi) {
+        if(xi == yi) continue;
+        std::string cid = "ident|" + std::to_string(xi) + "|" + std::to_string(yi);
+        if(!vp::want(cid)) continue;
+        vp::current_case() = cid; vp::state(); vp::eval(); vp::nontrivial(vp::fnv(cid));
+        const Ctl &X = L[xi], &Y = L[yi];
+        Sys::Inst I;
+        auto flush = [&]() {      // deliver everything in both directions until quiet
+            for(int guard = 0; guard < 16 && (!I.n2r.empty() || !I.r2n.empty()); ++guard) {
+                while(!I.n2r.empty()) { Msg m = I.n2r.front(); I.n2r.pop_front(); rtosc::RtData d; char loc[128]; memset(loc, 0, sizeof loc); d.loc = loc; d.loc_size = sizeof loc; d.obj = &I.rt; rtosc::MidiMapperRT::ports.dispatch(m.bytes.data() + strlen("/midi-learn/"), d); vp::transition(); }
+                while(!I.r2n.empty()) { Msg m = I.r2n.front(); I.r2n.pop_front(); int id = I.use_id(m); if(id != -1000) I.nrt.useFreeID(id); vp::transition(); }
+            }
+        };
+        auto cc = [&](const Ctl &c, int v) { I.backend.clear(); I.rt.handleCC(c.par, v, (char)c.chan, c.nrpn); vp::transition(); };
+        const std::string cls = std::string(X.nrpn ? "nrpn" : "cc") + "+" + (Y.nrpn ? "nrpn" : "cc") + (X.chan == Y.chan ? ",same-channel" : ",other-channel") + (X.par == Y.par ? ",same-number" : "");
+        const std::string who = "first controller " + ctl_name(X) + " learned for " + P0.path + ", second controller " + ctl_name(Y);
+        auto one_to = [&](const PInfo &p, const char *step) {
+            if(I.backend.size() == 1 && I.backend[0].ok && I.backend[0].addr == p.path) return true;
+            vp::violation(std::string("msg-count|controller-identity|") + cls, cid, who + "; " + step + ": expected exactly one message to " + p.path + ", got " + Sys::show_msgs(I.backend));
+            return false;
+        };
+        I.nrt.map(P0.path, true); flush();
+        cc(X, 100); flush();                       // reported free, assigned to /p
+        cc(X, 127); bool ok = one_to(P0, "the first controller sends again");
+        if(ok) {
+            I.nrt.map(P1.path, true); flush();
+            cc(Y, 64);
+            if(!I.backend.empty()) { vp::violation("unassigned-controller-drives|controller-identity|" + cls, cid, who + " was never assigned but its first value produced " + Sys::show_msgs(I.backend)); ok = false; }
+            flush();
+        }
+        if(ok) { cc(Y, 127); ok = one_to(P1, "the second controller sends after the handshake (it should have been learned for the queued address)"); }
+        if(ok) { cc(X, 0); ok = one_to(P0, "the first controller sends once more"); }
+        vp::outcome(std::string("identity:") + (ok ? "ok" : "BAD")); vp::trace();
+    }
+}
+
 int main(int argc, char **argv)
 {
     vp::init(argc, argv, "C20");
     const bool T = vp::thorough();
     std::string variants = T ? "ba" : "b";
+    if(!vp::replaying() || vp::ctx().replay.compare(0, 6, "ident|") == 0) { select_variant('b'); controller_identity(); }
+    if(vp::replaying() && vp::ctx().replay.compare(0, 6, "ident|") == 0) return vp::finish();
     for(char variant : variants) {
     select_variant(variant);
     bfs::Engine<Sys> E;
@@ -503,6 +555,13 @@ int main(int argc, char **argv)
     { bfs::Hist h; learn(h, 0, 0, 0, 1); h.push_back(OP_MAP + 2); h.push_back(OP_MAP + 4); h.push_back(OP_DN2R); h.push_back(OP_DN2R); E.roots.push_back(h); } // /p <- 1; /q, /r queued and announced
     vp::bound("roots", "initial state + 5 prepared states: {/p<-1}, {/r coarse<-1, fine<-2}, {/p<-1,/q<-2,/r<-3}, {/p<-1; /q and /r queued and announced}, {/q coarse<-1, fine<-2}");
     { bfs::Hist h; learn(h, 1, 0, 0, 1); learn(h, 1, 1, 1, 1); E.roots.push_back(h); }                      // /q coarse <- 1, fine <- 2 (14 bit on an integer range)
+    // many completed learn cycles: the pending ring of the realtime half (32 entries) stands at / next to its wrap-around
+    for(int n : {30, 31}) {
+        bfs::Hist h;
+        for(int k = 0; k < n; ++k) { learn(h, 0, 0, k % 3, 1); h.push_back(OP_UNMAP + 0); h.push_back(OP_DN2R); }
+        E.late_roots.push_back({h, 6});
+    }
+    vp::bound("cycle_roots", "2 states: 30 and 31 completed cycles of map(/p) - CC - handshake - unMap(/p), which move the realtime half's ring of pending controllers to its last slots; all histories of <= 6 further events from each");
     // the result files of the two engines must not collide
     vp::Ctx &C = vp::ctx(); std::string keep_out = C.out;
     if(!C.out.empty()) C.out = C.out.substr(0, C.out.size() - 5) + "_v" + std::string(1, variant) + ".json";
